@@ -30,5 +30,6 @@ PoolC06 == {S(C(1,"ok")), S(C(2,"ok")), B2(C(1,"ok"), C(2,"ok")), B3(C(1,"ok"), 
 PoolC07 == {S(C(1,"ok")), S(C(1,"nf")), S(C(1,"rpc")), S(C(2,"ok")), B2(C(1,"ok"), C(1,"ok")), B2(C(1,"nf"), C(2,"ok")), S(N("ok"))}
 PoolC08 == {S(N("ok")), S(C(1,"ok")), S(InvNote), G, E, B2(C(1,"ok"), N("ok"))}
 PoolC09 == {S(C(1,"ok")), S(N("ok")), S(R(1)), S(R(2)), B2(R(1), C(1,"ok")), B2(R(1), R(1))}
+PoolC09r == {S(R(1)), S(R(2)), S(N("ok"))}
 PoolSmall == {S(N("ok")), S(C(1,"ok")), G}
 ================================================================================
